@@ -16,6 +16,7 @@ import (
 
 	"github.com/boombuler/barcode/aztec"
 	"github.com/boombuler/barcode/code128"
+	"github.com/boombuler/barcode/datamatrix"
 	"github.com/boombuler/barcode/pdf417"
 )
 
@@ -47,6 +48,8 @@ func writeInts(w *bufio.Writer, xs []int) {
 	w.WriteByte(']')
 }
 
+var padFlag = flag.Int("pad", 0, "dm: number of pad codewords to append")
+
 func encode(sym string, content []int) (out []int, ok bool) {
 	defer func() {
 		if r := recover(); r != nil {
@@ -77,6 +80,17 @@ func encode(sym string, content []int) (out []int, ok bool) {
 			}
 		}
 		return out, true
+	case "dm":
+		b := make([]byte, len(content))
+		for i, c := range content {
+			b[i] = byte(c)
+		}
+		cws := datamatrix.VerifEncodeText(string(b), *padFlag)
+		out = make([]int, len(cws))
+		for i, v := range cws {
+			out[i] = int(v)
+		}
+		return out, true
 	case "c128":
 		r := make([]rune, len(content))
 		for i, c := range content {
@@ -98,7 +112,7 @@ func encode(sym string, content []int) (out []int, ok bool) {
 }
 
 func main() {
-	sym := flag.String("sym", "", "pdf | aztec | c128")
+	sym := flag.String("sym", "", "pdf | aztec | c128 | dm")
 	alpha := flag.String("alphabet", "", "comma separated byte / rune values")
 	maxlen := flag.Int("maxlen", 3, "maximal suffix length")
 	prefix := flag.String("prefix", "", "comma separated fixed prefix")
@@ -120,6 +134,9 @@ func main() {
 		writeInts(w, cur)
 		w.WriteString(`,"out":`)
 		writeInts(w, out)
+		if *sym == "dm" {
+			w.WriteString(`,"pad":` + strconv.Itoa(*padFlag))
+		}
 		if ok {
 			w.WriteString(`,"ok":true}` + "\n")
 		} else {
